@@ -169,6 +169,7 @@ class World:
         self.parked_now = False
         self._inflight = None
         self.last_batch = {}
+        self.unopened = set()
 
     def obs(self):
         if self.observer is None or not self.observer.alive:
@@ -390,8 +391,23 @@ class World:
                 self.probes["batch with unserialisable trace committed the rest"] += 1
             self.check_raw(where + ":after-add", tolerate_locked=False)
 
+    def ensure_open(self, ai):
+        if ai not in self.unopened:
+            return True
+        r = self.actor(ai).call({"op": "reopen"})
+        if "err" in r:
+            if ai in self.limited:
+                return False
+            self.viol("C09.liveness", None, {"actor": ai}, "store cannot be reopened although no fault is active: " + r["err"][:300])
+            return False
+        self.unopened.discard(ai)
+        return True
+
     def do_op(self, op, idx):
         k = op["op"]
+        if k in ("add", "readd", "filter", "list_modules") and not self.ensure_open(op["actor"]):
+            self.probes["operation skipped: store not open under disk-full"] += 1
+            return
         if k == "add":
             self.last_batch[op["actor"]] = op["batch"]
             return self.do_add(op, idx)
@@ -424,7 +440,13 @@ class World:
             r = self.actor(ai).call({"op": "reopen"})
             self.faults["reopen"] += 1
             if "err" in r:
-                self.viol("C09.durable", None, {"where": where}, "reopen failed: " + r["err"][:300])
+                if ai in self.limited:
+                    self.probes["reopen failed under disk-full"] += 1
+                    self.unopened.add(ai)
+                else:
+                    self.viol("C09.durable", None, {"where": where}, "reopen failed: " + r["err"][:300])
+            else:
+                self.unopened.discard(ai)
             self.check_raw("reopen:" + where, tolerate_locked=False)
         elif k == "clock":
             self.actor(ai).call({"op": "clock", "days": op["days"]})
@@ -505,15 +527,17 @@ def run_enum(plan):
         base.actors.clear()
         base_model = collections.Counter(base.model)
         snap = base.path + ".base"
-        if os.path.exists(base.path):
-            shutil.copyfile(base.path, snap)
+        SUFFIXES = ("", "-journal", "-wal", "-shm")
+        for suffix in SUFFIXES:   # all connections are closed: the files on disk are the whole state
+            if os.path.exists(base.path + suffix):
+                shutil.copyfile(base.path + suffix, snap + suffix)
 
         def restore():
-            for suffix in ("", "-journal"):
+            for suffix in SUFFIXES:
                 if os.path.exists(base.path + suffix):
                     os.unlink(base.path + suffix)
-            if os.path.exists(snap):
-                shutil.copyfile(snap, base.path)
+                if os.path.exists(snap + suffix):
+                    shutil.copyfile(snap + suffix, base.path + suffix)
             base.model = collections.Counter(base_model)
             for x in list(base.actors.values()):
                 x.stop()
